@@ -235,3 +235,7 @@ pub(crate) fn c04_grid_scope_monotonicity() {
     vk::grid_done("c04_grid_scope_monotonicity", n);
     if !failures.is_empty() { panic!("hint soundness failures: {{{}}}", failures.into_iter().collect::<Vec<_>>().join("; ")); }
 }
+
+// (A Kani harness-asserted contract for candidate_from_statically_evaluated_filters with ONE filter and a
+//  one-entry variable map was tried: itertools::partition_map + Vec<CandidateValue<Cow<..>>> + intersect
+//  does not finish in 10 minutes / 18 GB, so the function stays with the native grid above.)
